@@ -164,3 +164,52 @@ func VerifFnvStep() {
 	}
 	verifReach("end")
 }
+
+// VerifMetaDamageThenCommit (C16, C01): a real file with two intact headers; the
+// header of the older commit is damaged (its txid field holds any 64-bit value,
+// so the page does not validate); the file is opened, further transactions
+// commit, the file is reopened: the damaged header must never influence which
+// state wins.
+func VerifMetaDamageThenCommit() {
+	cfg := &progCfg{maxPages: 64, concrete: true}
+	s := verifNewProg(cfg)
+	s.setup(2)
+	s.followUp() // second commit: both header slots hold valid headers
+	verifAssert(s.f.Close() == nil, "File.Close succeeds")
+	img := s.disk.image()
+	// locate the older header and damage it
+	h0, h1 := castMetaPage(img[0:]), castMetaPage(img[verifPageSize:])
+	verifAssert(h0.Validate() == nil && h1.Validate() == nil, "both headers are intact after two commits")
+	older := 0
+	if int64(h0.txid.Get()-h1.txid.Get()) > 0 {
+		older = 1
+	}
+	newest := castMetaPage(img[(1-older)*verifPageSize:]).txid.Get()
+	dm := castMetaPage(img[older*verifPageSize:])
+	garbage := verifU64("garbage txid")
+	verifAssume(garbage != dm.txid.Get())
+	dm.txid.Set(garbage)
+	if verifBool("checksum too") {
+		dm.checksum.Set(verifU32("garbage checksum"))
+	}
+	verifAssume(dm.Validate() != nil) // the damage is detectable
+
+	s.disk = memFileFrom(img, cap(s.disk.data))
+	f, err := openWith(s.disk, cfg.options())
+	verifAssert(err == nil, "opening with one damaged header succeeds")
+	f.reportOpen()
+	s.f = f
+	verifAssert(f.getMetaPage().txid.Get() == newest, "the intact (newest) header is selected")
+	s.checkCommitted("after opening with a damaged header")
+	n := 1 + verifChoose(2)
+	for k := 0; k < n; k++ {
+		s.followUp()
+		verifAssert(f.getMetaPage().txid.Get() == newest+uint64(k)+1, "commit numbers continue from the intact header")
+	}
+	s.checkCommitted("after further commits")
+	s.reopen()
+	verifAssert(s.f.getMetaPage().txid.Get() == newest+uint64(n), "after reopening the newest commit wins")
+	s.checkCommitted("after reopening")
+	s.assertPartition("after reopening")
+	verifReach("end")
+}
